@@ -352,6 +352,10 @@ package server
 //@ inline server.latestOnlyWrapper
 
 //@ lemma seq_monotone(t int, i int, j int, d int): 0 <= i && i <= j && j < N(t) && isChange(K(t, i), d) && isChange(K(t, j), d) ==> kseq(K(t, i)) <= kseq(K(t, j))
+// composition of change-feed pages (mechanised; over the closed form of ProcessChangesRaw's post-conditions: a page called
+// with `since` that returns token r examines exactly the positions p with since <= p < r, and since <= r): following the
+// token, two pages examine exactly the positions of one page from the first `since` to the second token, none twice
+//@ lemma [C02,C08] paging_changes_compose(s int, r1 int, r2 int, p int): s <= r1 && r1 <= r2 ==> (((s <= p && p < r1) || (r1 <= p && p < r2)) <==> (s <= p && p < r2)) && !((s <= p && p < r1) && (r1 <= p && p < r2))
 //@ lemma seq_strict(t int, i int, j int, d int): 0 <= i && i < j && j < N(t) && isChange(K(t, i), d) && isChange(K(t, j), d) ==> kseq(K(t, i)) < kseq(K(t, j))
 
 //@ assumed bytes.Equal
@@ -372,6 +376,10 @@ package server
 //@   ensures [token-is-last-seen-plus-one] ret1 == nil && nextPos > pos0 ==> ret0 == kseq(K(txnG, nextPos - 1)) + 1
 //@   ensures [examined-are-this-datasets-changes] ret1 == nil ==> (forall j int :: pos0 <= j && j < nextPos ==> isChange(K(txnG, j), ds.InternalID) && kseq(K(txnG, j)) >= since)
 //@   ensures [nothing-skipped] ret1 == nil ==> (forall i int :: 0 <= i && i < N(txnG) && isChange(K(txnG, i), ds.InternalID) && kseq(K(txnG, i)) >= since && kseq(K(txnG, i)) < ret0 ==> pos0 <= i && i < nextPos)
+// together with nothing-skipped: a page examines exactly the changes of the dataset whose position p satisfies
+// since <= p < returned token - the closed form the composition lemma paging_changes_compose (below) is about
+//@   ensures [C02:examined-changes-lie-below-the-returned-token] ret1 == nil ==> (forall j int :: pos0 <= j && j < nextPos ==> kseq(K(txnG, j)) < ret0)
+//@   ensures [C02,C08:the-token-never-goes-back] ret1 == nil ==> ret0 >= since
 //@   ensures [emitted-only-examined] ret1 == nil ==> (forall j int :: has(emitted, j) ==> pos0 <= j && j < nextPos)
 //@   ensures [full-feed-emits-every-examined] ret1 == nil && !latestOnly ==> (forall j int :: pos0 <= j && j < nextPos ==> has(emitted, j))
 //@   ensures [C02,C08:a-page-ends-only-when-the-change-log-is-exhausted-or-the-page-is-full] ret1 == nil ==> nextPos == N(txnG) || !isChange(K(txnG, nextPos), ds.InternalID) || (limit > 0 && emitCountG == limit)
@@ -384,6 +392,7 @@ package server
 //@   at $1 call Item#1
 //@     ghost cur := $itPos[changesIterator]
 //@     use seq_monotone(txnG, pos0, cur, ds.InternalID)
+//@     use seq_monotone(txnG, cur - 1, cur, ds.InternalID)
 //@   at $1$1$1 call processChangedEntity#1 before
 //@     assert [emitted-once] !has(emitted, cur)
 //@     ghost emitted := add(emitted, cur)
@@ -406,6 +415,7 @@ package server
 //@     invariant foundChanges <==> nextPos > pos0
 //@     invariant processed == emitCountG
 //@     invariant foundChanges ==> lastSeen == kseq(K(txnG, nextPos - 1))
+//@     invariant forall j int :: pos0 <= j && j < nextPos ==> kseq(K(txnG, j)) <= lastSeen
 //@     invariant forall j int :: pos0 <= j && j < nextPos ==> isChange(K(txnG, j), ds.InternalID) && kseq(K(txnG, j)) >= since
 //@     invariant forall i int :: 0 <= i && i < pos0 ==> kcl(K(txnG, i)) < 4 || (kcl(K(txnG, i)) == 4 && (kf32(K(txnG, i)) < ds.InternalID || (kf32(K(txnG, i)) == ds.InternalID && kseq(K(txnG, i)) < since)))
 //@     invariant pos0 < N(txnG) && isChange(K(txnG, pos0), ds.InternalID) ==> kseq(K(txnG, pos0)) >= since
@@ -1523,8 +1533,24 @@ package server
 //@   modifies none
 //@   at $1 call Get#1 before
 //@     assert [C14:the-callers-key-is-the-one-read] $arg1 == key
-//@ assumed (*Store).loadDatasets
+// the dataset registry is reloaded from the key family CreateDataset / UpdateDataset write the records under; every
+// reloaded dataset is bound to this store and registered under its own name and its own internal id
+//@ assumed (*Store).iterateObjects
 //@   preserves Store.*, NamespaceManager.*
+//@ unit (*Store).loadDatasets
+//@   prop C14
+//@   requires s != nil
+//@   preserves Store.*, NamespaceManager.*
+//@   at call iterateObjects#1 before
+//@     assert [C14:datasets-are-reloaded-from-the-key-family-their-records-are-written-under] len(prefix) == 2 && encBE16(prefix, 0) == SysDatasetsID
+//@ unit (*Store).loadDatasets$1
+//@   prop C14
+//@   requires [TRUSTED-iterateObjects-hands-over-a-freshly-decoded-object-of-the-requested-type] typeof(i) == typeid("*server.Dataset") && cast(i, "*server.Dataset") != nil
+//@   at call Store#1 before
+//@     assert [C14:a-reloaded-dataset-is-bound-to-this-store-and-registered-under-its-own-name] cast(key, "string") == ds.ID && cast(value, "*server.Dataset") == ds && ds.store == s && ds == cast(i, "*server.Dataset")
+//@   at call Store#2 before
+//@     assert [C14:a-reloaded-dataset-is-registered-under-its-own-internal-id] cast(key, "uint32") == ds.InternalID && cast(value, "*server.Dataset") == ds
+//@   safe typeassert
 //@ assumed badger.DefaultOptions
 //@   pure
 //@ assumed badger.Open
@@ -1609,8 +1635,23 @@ package server
 // ---------------------------------------------------------------------------
 // C03 / C06: a first query page: the start points are resolved for the requested predicate, direction and scope at one
 // instant taken now, and exactly these are handed to the paged scan with the requested limit
-//@ assumed (*Store).DatasetsToInternalIDs
-//@   pure
+// a scope list: every id in it is the internal id of a registered dataset whose name was requested, in request order;
+// names that are not registered contribute nothing (an empty scope then means "all datasets" to the readers: specified
+// by the suite, see DESIGN section 7.2)
+//@ unit (*Store).DatasetsToInternalIDs
+//@   prop C01 C03 C06
+//@   requires s != nil
+//@   modifies none
+//@   ensures [C01,C03,C06:no-more-scope-entries-than-requested-names] len(result) <= len(datasets)
+//@   at call Load#1 before
+//@     assert [C01,C03,C06:the-registry-is-asked-for-the-requested-name] cast(key, "string") == ds
+//@   at call Load#1
+//@     assume [TRUSTED-data-invariant:the-dataset-registry-holds-datasets] $result1 ==> typeof($result0) == typeid("*server.Dataset")
+//@   at call append#1 before
+//@     assert [C01,C03,C06:a-scope-entry-is-the-internal-id-of-the-registered-dataset-with-the-requested-name] len($arg1) == 1 && $arg1[0] == cast(dataset, "*server.Dataset").InternalID && cast(dataset, "*server.Dataset").ID == ds && $arg0 == scopeArray
+//@   loop 1
+//@     invariant -1 <= $i && $i < len(datasets) && len(scopeArray) <= $i + 1
+//@   safe typeassert
 // uri -> id: looked up under the key {uri-to-id index, bytes of the uri}, the key family assertIDForURI writes; the id is
 // the big-endian value stored there
 //@ spec isUriKey(k []byte, uri string) bool = len(k) == len(uri) + 2 && encBE16(k, 0) == 0 && (forall j int :: 0 <= j && j < len(uri) ==> k[2 + j] == strByteAt(uri, j))
